@@ -895,6 +895,9 @@ func (n *RegexNode) canBeMadeAtomic(subsequent *RegexNode, iterateNullableSubseq
 		if n.Options != subsequent.Options {
 			return false
 		}
+		if verifNoNonboundaryAtomic && (subsequent.T == NtNonboundary || subsequent.T == NtNonECMABoundary) {
+			return false
+		}
 
 		// If the successor is an alternation, all of its children need to be evaluated, since any of them
 		// could come after this node.  If any of them fail the optimization, then the whole node fails.
